@@ -11,12 +11,13 @@ From LanceV Require Import Common.Base Codec.Model_RepDef Codec.Proofs_RepDef.
 Local Open Scope N_scope.
 
 (* Round trip, for EVERY well-formed stack of validity / list layers of any depth and any lengths,
-   outside the three classes in which the real code (and the model) lose information. *)
+   outside the one remaining class in which the real code (and the model) lose information.
+   (Two former classes - list_of_nullable_struct_repdef (F21) and allvalid_list_over_nullable_items -
+   were repaired in /repo (d90c193, acc257d); the model follows the repaired code and the theorem now
+   covers their inputs; see the regression examples below.) *)
 Theorem C27_roundtrip : forall (cs : list call) (outs : list layer_out),
   spec_top cs = Some outs ->
   c27_dom cs = true ->
-  Known_C27_list_of_nullable_struct_repdef cs = false ->
-  Known_C27_allvalid_list_over_nullable_items cs = false ->
   Known_C27_allvalid_list_inside_nullable_struct cs = false ->
   roundtrip cs = Ok (rev outs).
 Proof. exact roundtrip_correct. Qed.
@@ -65,37 +66,22 @@ Print Assumptions C27_control_words.
 (* ---- the known-finding classes are real: a well-formed member of each class on which the round trip fails *)
 Definition T := true. Definition F := false.
 
-(* F21 (a): a second nullable validity layer below a list with an empty list: debug_assert repdef.rs:626 *)
-Theorem C27_list_of_nullable_struct_repdef_refuted :
-  exists cs outs, Known_C27_list_of_nullable_struct_repdef cs = true /\ c27_dom cs = true /\
-                  spec_top cs = Some outs /\ roundtrip cs <> Ok (rev outs).
-Proof.
-  exists [COffsets [0;1;1] None; CValidity [T]; CValidity [F]]. eexists.
-  split; [vm_compute; reflexivity|]. split; [vm_compute; reflexivity|]. split; [vm_compute; reflexivity|].
-  vm_compute. discriminate.
-Qed.
-Print Assumptions C27_list_of_nullable_struct_repdef_refuted.
-
-(* F21 (b): zero-length validity below lists that are all null/empty: build() drops the levels *)
-Theorem C27_list_of_nullable_struct_repdef_refuted_b :
-  exists cs outs, Known_C27_list_of_nullable_struct_repdef cs = true /\ c27_dom cs = true /\
-                  spec_top cs = Some outs /\ roundtrip cs <> Ok (rev outs).
-Proof.
-  exists [COffsets [0;0;0] (Some [F;T]); CValidity []]. eexists.
-  split; [vm_compute; reflexivity|]. split; [vm_compute; reflexivity|]. split; [vm_compute; reflexivity|].
-  vm_compute. discriminate.
-Qed.
-Print Assumptions C27_list_of_nullable_struct_repdef_refuted_b.
-
-Theorem C27_allvalid_list_over_nullable_items_refuted :
-  exists cs outs, Known_C27_allvalid_list_over_nullable_items cs = true /\ c27_dom cs = true /\
-                  spec_top cs = Some outs /\ roundtrip cs <> Ok (rev outs).
-Proof.
-  exists [COffsets [0;2;3] None; CValidity [F;T;T]]. eexists.
-  split; [vm_compute; reflexivity|]. split; [vm_compute; reflexivity|]. split; [vm_compute; reflexivity|].
-  vm_compute. discriminate.
-Qed.
-Print Assumptions C27_allvalid_list_over_nullable_items_refuted.
+(* regression examples: the inputs of the two repaired classes now round trip (and lie in the theorem's domain) *)
+Example C27_regression_list_of_nullable_struct_a :
+  let cs := [COffsets [0;1;1] None; CValidity [T]; CValidity [F]] in
+  c27_dom cs = true /\ Known_C27_allvalid_list_inside_nullable_struct cs = false /\
+  roundtrip cs = Ok [(Some [F], None); (Some [T], None); (None, Some [0;1;1])].
+Proof. vm_compute. repeat split; reflexivity. Qed.
+Example C27_regression_list_of_nullable_struct_b :
+  let cs := [COffsets [0;0;0] (Some [F;T]); CValidity []] in
+  c27_dom cs = true /\ Known_C27_allvalid_list_inside_nullable_struct cs = false /\
+  roundtrip cs = Ok [(Some [], None); (Some [F;T], Some [0;0;0])].
+Proof. vm_compute. repeat split; reflexivity. Qed.
+Example C27_regression_allvalid_list_over_nullable_items :
+  let cs := [COffsets [0;2;3] None; CValidity [F;T;T]] in
+  c27_dom cs = true /\ Known_C27_allvalid_list_inside_nullable_struct cs = false /\
+  roundtrip cs = Ok [(Some [F;T;T], None); (None, Some [0;2;3])].
+Proof. vm_compute. repeat split; reflexivity. Qed.
 
 Theorem C27_allvalid_list_inside_nullable_struct_refuted :
   exists cs outs, Known_C27_allvalid_list_inside_nullable_struct cs = true /\ c27_dom cs = true /\
@@ -113,8 +99,6 @@ Example C27_nonvacuous :
   let cs := [COffsets [0;2;2;5] (Some [T;F;T]); COffsets [0;1;3;5;5;9] (Some [T;T;T;F;T]);
              CValidity [T;T;T;F;F;F;T;T;F]] in
   c27_dom cs = true /\
-  Known_C27_list_of_nullable_struct_repdef cs = false /\
-  Known_C27_allvalid_list_over_nullable_items cs = false /\
   Known_C27_allvalid_list_inside_nullable_struct cs = false /\
   spec_top cs = Some [(Some [T;F;T], Some [0;2;2;5]); (Some [T;T;T;F;T], Some [0;1;3;5;5;9]);
                       (Some [T;T;T;F;F;F;T;T;F], None)] /\
@@ -126,8 +110,6 @@ Proof. vm_compute. repeat split; reflexivity. Qed.
 Example C27_nonvacuous_masked :
   let cs := [CValidity [T;F;T;T]; COffsets [3;5;5;5;9] (Some [T;F;T;F]); CValidity [T;F]] in
   c27_dom cs = true /\
-  Known_C27_list_of_nullable_struct_repdef cs = false /\
-  Known_C27_allvalid_list_over_nullable_items cs = false /\
   Known_C27_allvalid_list_inside_nullable_struct cs = false /\
   roundtrip cs = Ok [(Some [T;F], None); (Some [T;F;T;F], Some [0;2;2;2;2]); (Some [T;F;T;T], None)].
 Proof. vm_compute. repeat split; reflexivity. Qed.
